@@ -445,11 +445,6 @@ def pretty_text(tree, indent):
     return ''.join(f.text for f in es5.pretty_printer(indent_str=indent)(tree))
 
 
-def effective_indent(indent):
-    """KF-20a: an empty indent string is falsy, the Indentator falls back to the Dispatcher's indent_str"""
-    return indent
-
-
 def judge_program(text, wc, indent):
     """-> (problems, output) of the property on the implementation; None if the text does not parse"""
     from calmjs.parse.parsers.es5 import parse
@@ -462,14 +457,20 @@ def judge_program(text, wc, indent):
 
 
 def classify_known(text, wc, indent, out):
-    """structural classes of known findings (shared with the exclusions of the `…_partial` theorems)"""
+    """structural classes of OPEN known findings (shared with the exclusions of `…_partial` theorems).
+    None at present: KF-20a (an empty indent string was replaced by the Dispatcher default) is fixed in /repo
+    (commit 43f8941); if the behaviour returns it is an ordinary violation, described by `describe_regression`."""
+    return None
+
+
+def describe_regression(indent, out):
     from calmjs.parse.unparsers.walker import Dispatcher
     if indent == '':
         d = Dispatcher({}, None, {}, {}).indent_str
         if not judge_text(out, d):
-            return 'KF-20a', ('empty-indent-string: pretty_printer(indent_str=\'\') indents with the Dispatcher default %r '
-                              '(`self.indent_str if self.indent_str else dispatcher.indent_str`: \'\' is falsy)' % d)
-    return None
+            return ('regression of fixed finding KF-20a: pretty_printer(indent_str=\'\') indents with the Dispatcher '
+                    'default %r; ' % d)
+    return ''
 
 
 def hand_built_trees(rng):
@@ -576,7 +577,8 @@ def run(ctx):
             return bool(r and r[0] and not classify_known(t, wc, ind, r[1]))
         small = shrink.shrink_text(text, bad, max_tests=600)
         r = judge_program(small, wc, ind)
-        ctx.violation('pretty output not indented by block depth / no single trailing newline: %s' % r[0][0],
+        ctx.violation('%spretty output not indented by block depth / no single trailing newline: %s' % (
+                      describe_regression(ind, r[1]), r[0][0]),
                       dict(text=small, with_comments=wc, indent=ind, output=r[1], problems=r[0], original=text), True)
     ctx.obligation('judge: indentation = indent x depth on every token-starting line, depth 0 at end, one trailing newline',
                    not failures, 'judge', '%d (program, comments, indent) outputs judged' % njudged)
@@ -591,6 +593,24 @@ def run(ctx):
     diffs = ut.unparse_tie(ctx, tie_items, cfgs, record=False)
     diffs += ut.unparse_tie(ctx, hand_built_trees(trng), cfgs, record=False, texts=False)
     handle_diffs(ctx, diffs, cfgs)
+    check_hypotheses(ctx, tie_items)
+
+
+def check_hypotheses(ctx, items):
+    """the decidable hypotheses of `ends_with_one_newline_partial` (tailSafe, tokensCleanB) evaluated by the model on
+    every parsed program of the tie: they must hold for parser output (the theorem then applies to it)"""
+    drv = ctx.driver('drv_unparse')
+    bad = []
+    n = 0
+    for label, tree, wc in ut.parse_items(items):
+        line = ut.tree_line(tree)
+        for ind in ('N', "'%20;%20;", "'%9;"):
+            rep = drv.ask('tailsafe indent %s %s' % (ind, line))
+            n += 1
+            if rep != 'OK T T':
+                bad.append(dict(text=label, with_comments=wc, indent=ind, reply=rep))
+    ctx.obligation('hypotheses of ends_with_one_newline_partial (tailSafe, tokensCleanB) hold on every parsed program', not bad,
+                   'tie', '%d (tree, indent) pairs; first failures: %r' % (n, bad[:2]))
 
 
 def handle_diffs(ctx, diffs, cfgs):
